@@ -19,6 +19,8 @@ def check(chk, thorough=False):
     chk.run('C09.e', 'R-ESCAPE', 'every SESS_TERM send reachable from an event-loop callback has its preconditions established', lambda ob: c09e(tree, ob), floor=3)
     chk.run('C09.f', 'R-FLOW', 'closing a connection notifies the agent, which announces it and stops when the last one is gone during shutdown', lambda ob: c09f(tree, ob), floor=4)
     chk.run('C09.h', 'R-GUARD', 'a transfer already in progress keeps sending its segments while terminating', lambda ob: c09h(tree, ob), floor=1)
+    chk.run('C09.k', 'R-FLOW', 'the idle time that ends a silent terminating session is the configured one, not derived from the negotiated keepalive (= C14.a)', lambda ob: __import__('sa.props.c14', fromlist=['c14a']).c14a(tree, ob), floor=3)
+    chk.run('C09.l', 'R-GUARD', 'transfers under way finish while terminating: no handler of XFER_SEGMENT / XFER_ACK / XFER_REFUSE refuses its message because SESS_TERM was sent or received', lambda ob: c09l(tree, ob), floor=4)
     chk.run('C09.i', 'R-GUARD', 'the idle indication that gates the close covers transfers, queues and every octet buffer down to the socket (= C18.d)', lambda ob: _c18d(tree, ob), floor=6)
     chk.run('C09.j', 'R-PAIR', 'timers of a terminating endpoint: own transmissions do not defer the idle close, the SESS_TERM arms it (= C14.d)', lambda ob: _c14d(tree, ob), floor=4)
     chk.run('C09.g', 'R-ITER', 'agent stop/shutdown loops are not invalidated by the handlers they close and do not skip handlers', lambda ob: c09g(tree, ob), floor=2)
@@ -496,3 +498,25 @@ def c09h(tree, ob):
                            'pulled, so the transfer stalls and the session stays half-open', call)
             else:
                 ob.site(SESS, call, item.name + ' re-arms the pump regardless of termination')
+
+
+
+def c09l(tree, ob):
+    from ..core import ancestors
+    n = 0
+    for cname in ('Messenger', 'ContactHandler'):
+        for mname in ('recv_xfer_data', 'recv_xfer_ack', 'recv_xfer_refuse'):
+            got = [m for m in tree.klass(SESS, cname).body if isinstance(m, ast.FunctionDef) and m.name == mname]
+            if not got:
+                continue
+            func = got[0]
+            for r in [x for x in walk_local(func) if isinstance(x, ast.Raise)]:
+                n += 1
+                tests = [a.test for a in ancestors(r) if isinstance(a, (ast.If, ast.While)) and a is not func]
+                bad = [t for t in tests if '_in_term' in src(t) or '_term_recv' in src(t)]
+                if bad:
+                    ob.violate(SESS, '{}.{}'.format(cname, mname), 'if {}: raise'.format(src(bad[0])[:70]), 'a transfer message is refused because the session is terminating: the segments (or acknowledgements) of a '
+                               'transfer that was under way when SESS_TERM crossed are rejected, the bundle is never completed and both ends wait', r)
+                else:
+                    ob.site(SESS, r, '{}.{}: refusal does not depend on termination'.format(cname, mname))
+    ob.require(n >= 4, 'refusals in the transfer handlers: {}'.format(n))
